@@ -987,7 +987,19 @@ class DataT:
                             ok = True
                             break
                     if not ok:
-                        raise AnalysisError('unsupported', 'store into a rectangle that overlaps existing content')
+                        if len(part) != 2:
+                            raise AnalysisError('unsupported', 'store into a box that overlaps existing content')
+                        # T_a (x) T_b with the rectangle R_a x R_b cleared  =  T_a|~R_a (x) T_b  +  T_a|R_a (x) T_b|~R_b
+                        pa, pb = part
+                        ra, rb = set(s_sel[pa][0]), set(s_sel[pb][0])
+                        ta, tb_ = t.tables[pa], t.tables[pb]
+                        out_a = AxisTable(ta.base_axis, [ZERO_FORM if i in ra else f for i, f in enumerate(ta.forms)])
+                        in_a = AxisTable(ta.base_axis, [f if i in ra else ZERO_FORM for i, f in enumerate(ta.forms)])
+                        out_b = AxisTable(tb_.base_axis, [ZERO_FORM if i in rb else f for i, f in enumerate(tb_.forms)])
+                        for nt in (t.with_table(pa, out_a), t.with_table(pa, in_a).with_table(pb, out_b)):
+                            if not nt.is_zero():
+                                kept.append(nt)
+                        continue
                     kept.append(t)
             add = []
             if v is not None:
